@@ -18,7 +18,7 @@ fn num(x: &impl Term) -> u8 { x.iri().unwrap().as_str()[2..].parse().unwrap() }
 type Q = (u8, u8, u8, u8);
 fn fail(what: &str, ds: &[Q], detail: String) -> ! { println!("{{\"mismatch\":{:?},\"dataset\":\"{:?}\",\"detail\":{:?}}}", what, ds, detail); std::process::exit(1) }
 
-fn check<D: Dataset + MutableDataset + Default>(name: &str, qs: &[Q]) {
+fn check<D: Dataset + MutableDataset + Default>(name: &str, qs: &[Q]) where <D as MutableDataset>::MutationError: From<<D as Dataset>::Error> {
     let mut d = D::default();
     for q in qs { d.insert(t(q.0), t(q.1), t(q.2), g(q.3)).unwrap(); }
     let set: BTreeSet<Q> = qs.iter().cloned().collect();
@@ -65,6 +65,19 @@ fn check<D: Dataset + MutableDataset + Default>(name: &str, qs: &[Q]) {
             let c1: BTreeSet<Q> = d1.quads().map(|x| { let x = x.unwrap(); (num(&x.s()), num(&x.p()), num(&x.o()), x.g().map(|y| num(&y) - 10).unwrap_or(0)) }).collect();
             let c2: BTreeSet<Q> = d2.quads().map(|x| { let x = x.unwrap(); (num(&x.s()), num(&x.p()), num(&x.o()), x.g().map(|y| num(&y) - 10).unwrap_or(0)) }).collect();
             if r1 != r2 || c1 != c2 { fail("mutation through graph_mut(g)", qs, format!("{} g={} insert={} flag {} vs {} content {:?} vs {:?}", name, gi, ins, r1, r2, c1, c2)); }
+        }
+        // pattern-based bulk mutations through the view: only the viewed graph changes, the count is the number of
+        // triples of that graph really removed
+        for retain in [false, true] {
+            let mut d3 = D::default();
+            for q in qs { d3.insert(t(q.0), t(q.1), t(q.2), g(q.3)).unwrap(); }
+            let n = { let mut v = DatasetGraph::new(&mut d3, g(gi)); if retain { v.retain_matching([t(1)], Any, Any).unwrap(); 0 } else { v.remove_matching([t(1)], Any, Any).unwrap() } };
+            let want: BTreeSet<Q> = set.iter().cloned().filter(|q| q.3 != gi || ((q.0 == 1) == retain)).collect();
+            let got: BTreeSet<Q> = d3.quads().map(|x| { let x = x.unwrap(); (num(&x.s()), num(&x.p()), num(&x.o()), x.g().map(|y| num(&y) - 10).unwrap_or(0)) }).collect();
+            let removed = set.len() - want.len();
+            if got != want || (!retain && n != removed) {
+                fail(if retain { "retain_matching([1],Any,Any) through graph_mut(g)" } else { "remove_matching([1],Any,Any) through graph_mut(g)" }, qs, format!("{} g={} store afterwards {:?} expected {:?} (count {} expected {})", name, gi, got, want, n, removed));
+            }
         }
     }
 }
